@@ -68,18 +68,26 @@ impl System for StripStreamSys {
         hash_of(&(&s.canon, &s.model))
     }
     fn step(&self, s: &SsState, t: usize) -> Result<(SsState, u64), String> {
+        // what the history alone delivers
+        let mut probe = anstream::StripStream::new(Vec::new());
+        for &h in &s.history {
+            probe.write_all(&self.tokens[h]).map_err(|e| format!("write_all failed on Vec: {e}"))?;
+        }
+        if stream_canon(&probe) != s.canon {
+            return Err("machinery: replayed history did not reproduce the state".into());
+        }
+        let delivered_before = probe.into_inner().len();
+        // the history again, then the new chunk
         let mut stream = anstream::StripStream::new(Vec::new());
         for &h in &s.history {
             stream.write_all(&self.tokens[h]).map_err(|e| format!("write_all failed on Vec: {e}"))?;
         }
-        let canon_before = stream_canon(&stream);
-        if canon_before != s.canon {
-            return Err("machinery: replayed history did not reproduce the state".into());
-        }
-        let delivered_before = stream_snapshot(&stream).len();
         stream.write_all(&self.tokens[t]).map_err(|e| format!("write_all failed on Vec: {e}"))?;
         let canon = stream_canon(&stream);
         let all = stream.into_inner();
+        if all.len() < delivered_before {
+            return Err("machinery: delivered bytes shrank".into());
+        }
         let new = &all[delivered_before..];
         let mut model = s.model;
         model
@@ -331,19 +339,16 @@ fn replay(v: &serde_json::Value) -> Result<(), String> {
                     run_strip_str(&mut imp, &mut model, std::str::from_utf8(&l).unwrap())?;
                 }
             } else if sysname.starts_with("StripStream") {
-                let mut stream = anstream::StripStream::new(Vec::new());
                 let mut model = StripModel::default();
                 let mut done = 0;
-                for l in labels {
-                    stream.write_all(&l).map_err(|e| e.to_string())?;
-                    let d = format!("{stream:?}");
-                    let _ = d;
-                    // take a copy of what was delivered so far
-                    let mut probe = anstream::StripStream::new(Vec::new());
-                    let _ = &mut probe;
-                    let snapshot = stream_snapshot(&stream);
-                    model.check_output(&l, &snapshot[done..])?;
-                    done = snapshot.len();
+                for i in 0..labels.len() {
+                    let mut stream = anstream::StripStream::new(Vec::new());
+                    for l in &labels[..=i] {
+                        stream.write_all(l).map_err(|e| e.to_string())?;
+                    }
+                    let all = stream.into_inner();
+                    model.check_output(&labels[i], &all[done.min(all.len())..])?;
+                    done = all.len();
                 }
             } else {
                 let (mut imp, mut model) = (WinconBytes::new(), vmodel::runs::RunModel::default());
@@ -381,14 +386,6 @@ fn replay(v: &serde_json::Value) -> Result<(), String> {
         }
         k => Err(format!("unknown replay kind {k}")),
     }
-}
-
-/// bytes delivered so far, read from the Debug rendering of the inner Vec
-fn stream_snapshot(s: &anstream::StripStream<Vec<u8>>) -> Vec<u8> {
-    let d = format!("{s:?}");
-    let a = d.find("raw: [").map(|i| i + 6).unwrap_or(0);
-    let b = d[a..].find(']').map(|i| i + a).unwrap_or(a);
-    d[a..b].split(',').filter_map(|x| x.trim().parse::<u8>().ok()).collect()
 }
 
 fn unshow(s: &str) -> Vec<u8> {
